@@ -22,6 +22,9 @@ What is proved here, and what is not:
   `C20_quiescent_schedule_independent`: restated from C05 — the manager mutex serialises
   AddConn/RemoveConn, so a concurrent execution is an interleaving of the per-upstream scripts,
   and for every interleaving registry = cluster-local count = advertised count.
+* **Guarded fields (proved over the regenerated fact).**  `C20_guarded_fields`: a syntactic
+  lockset check — each mutable field declared above its struct's mutex is only touched with
+  that mutex held.
 * **Data races, panics, bounded completion: PARTIAL.**  They are facts about the Go runtime;
   this model cannot exhibit them.  They are looked for by the `conc` engine (real node stack,
   8–16 goroutines, `-race` build, watchdog, panic capture); that is testing, not proof.
@@ -83,6 +86,17 @@ theorem C20_acyclic :
 slice and unlocks before calling; the extractor finds no invocation of a `[]func` field's
 elements (directly or through calls) at a point where `cluster.State.mu` may be held. -/
 theorem C20_no_callback_under_cluster_mu : Facts.callbacksUnderClusterMu = some [] := by
+  decide
+
+/-- **Guarded fields (static lockset check over the regenerated fact).**  Every read or write of
+a mutable field declared above a mutex of its struct ("mu protects the above fields":
+`localUpstreams`, `sessions`, `pendingNodes`, cluster `nodes` and the two subscriber lists,
+gossip `nodes`, failure-detector `windows`) is at a point where that mutex is held —
+lexically, or at every call site of the enclosing unexported function.  This is a syntactic
+approximation of race freedom for these fields only (no aliasing analysis: data reached
+through a pointer taken under the lock and used after unlocking is not seen); the race
+detector run of the `conc` engine is what looks at everything else. -/
+theorem C20_guarded_fields : Facts.unguardedAccesses = some [] := by
   decide
 
 /-- the lock system whose programs follow the **extracted** graph never reaches a circular
